@@ -13,11 +13,18 @@ def run(ctx):
     behs += sc.run_family(ctx, "ebgp", c, 10000 if big else 1200)
     c = sc.consts("ibgp", {"ok"}, {"noNextHop", "medLen5", "pfxLen129", "annC6"}, {"lenShort", "lenLong", "badMarker"}, set(), 5)
     behs += sc.run_family(ctx, "ibgp", c, 3000 if big else 300)
+    # well-formed but unusual input must not hurt either: UPDATEs with AS4_AGGREGATOR / AS4_PATH / AGGREGATOR / unknown attributes /
+    # communities, an OPEN with add-path tuples for families the peer is not configured for
+    for cfg in ("ebgp", "ap", "ap6"):
+        c = sc.consts(cfg, {"ok", "okOddAP", "okNoAS4"}, sc.EXTRA_UPD if cfg != "ap6" else {"annC6"}, set(), set(), 5, sessions=1)
+        behs += sc.run_family(ctx, "unusual but well-formed " + cfg, c, 2000 if big else 150, design=False)
     ctx.rule = ("every malformed-header class (bad marker, length 5 / 18 / 5000, type 0 / 9), malformed OPEN (version, identifier 0) and "
                 "malformed UPDATE class (length fields beyond or short of the message, wrong fixed attribute lengths, truncated AS_PATH, "
                 "prefix length 33 / 129, missing ORIGIN / AS_PATH / NEXT_HOP / all attributes, truncated NLRI) delivered in OpenSent, "
                 "OpenConfirm and Established of a real bgpServer; the process must survive, the NOTIFICATION with the RFC 4271 section 6 "
                 "code (and subcode within the class's set) must be written before the connection is closed, and a following connection "
-                "must work; non-trivial = malformed input was delivered")
+                "must work; well-formed UPDATEs with AS4_AGGREGATOR, AS4_PATH, AGGREGATOR, unknown attributes, communities and OPENs with "
+                "add-path tuples for families that are not configured must be accepted; non-trivial = malformed or unusual input was delivered")
     ctx.replay("session", behs, per_timeout=90, shards=16,
-               nontrivial=lambda b: any(s["a"] == "RecvGarbage" or (s["a"] == "RecvUpdate" and not s["upd"]["ok"]) for s in b))
+               nontrivial=lambda b: any(s["a"] == "RecvGarbage" or (s["a"] == "RecvUpdate" and (not s["upd"]["ok"] or s["u"] != "annA")) or
+                                       (s["a"] == "RecvOpen" and s["o"] == "okOddAP") for s in b))
